@@ -25,13 +25,14 @@ def _err(C, e: BaseException) -> str:
 
 
 # --------------------------------------------------------------------------- single-operand operations
-BINARY_OR_PLAIN = {"split", "contains", "covers", "crosses", "disjoint", "intersects", "touches", "within", "overlaps", "difference",
+BINARY_OR_PLAIN = {"snap_to", "overlap_roi", "enclosing", "project", "crop", "compute_crop", "from_bbox", "from_geopolygon", "from_rio", "load",
+                   "geographic_extent", "footprint", "svg", "outline", "grid_lines", "compat", "split", "contains", "covers", "crosses", "disjoint", "intersects", "touches", "within", "overlaps", "difference",
                    "intersection", "symmetric_difference", "union", "__and__", "__or__", "__xor__", "__sub__", "__eq__", "__ne__",
                    "explore", "geojson", "svg", "svg_path", "from_xy", "from_points", "from_transform", "map_bounds"}
 
 
 # what the documentation says of the CRS of the result (everything else: the CRS of the object itself)
-DOCUMENTED_RULE = {"Geometry.assign_crs": "arg", "Geometry.to_crs": "target", "BoundingBox.to_crs": "target"}
+DOCUMENTED_RULE = {"Geometry.assign_crs": "arg", "Geometry.to_crs": "target", "BoundingBox.to_crs": "target", "GeoBox.to_crs": "target"}
 
 
 def _unary_args(C, name: str, crs_arg):
@@ -43,6 +44,8 @@ def _unary_args(C, name: str, crs_arg):
         "Geometry.to_crs": (crs_arg,), "Geometry.__rmul__": (Affine.translation(1, 2),), "BoundingBox.buffered": (1.0,),
         "BoundingBox.transform": (Affine.scale(2.0),), "BoundingBox.boundary": (3,), "BoundingBox.qr2sample": (5,),
         "BoundingBox.to_crs": (crs_arg,),
+        "GeoBox.pad": (1,), "GeoBox.pad_wh": (4,), "GeoBox.zoom_out": (2,), "GeoBox.zoom_to": ((4, 4),), "GeoBox.buffered": (0.5,),
+        "GeoBox.translate_pix": (1, 2), "GeoBox.rotate": (30,), "GeoBox.to_crs": (crs_arg,),
     }.get(name, ())
 
 
@@ -73,9 +76,14 @@ def discover_unary(C) -> Dict[str, str]:
     poly = sg.Polygon([(0, 0), (8, 0), (8, 8), (0, 8)], [[(1, 1), (2, 1), (2, 2)]])
     line = sg.LineString([(0, 0), (4, 4), (9, 1)])
     found: Dict[str, str] = {}
+    from affine import Affine
+
+    gbx = C.gbmod.GeoBox
     for cname, cls, mk in (("Geometry", gm.Geometry, lambda c, s=None: gm.Geometry(s if s is not None else shp, c)),
-                           ("BoundingBox", gm.BoundingBox, lambda c, s=None: gm.BoundingBox(1.0, 2.0, 5.0, 7.0, c))):
-        names = [n for n in dir(cls) if (not n.startswith("_") or n in ("__iter__", "__rmul__")) and n not in BINARY_OR_PLAIN]
+                           ("BoundingBox", gm.BoundingBox, lambda c, s=None: gm.BoundingBox(1.0, 2.0, 5.0, 7.0, c)),
+                           ("GeoBox", gbx, lambda c, s=None: gbx((8, 8), Affine(0.25, 0, 10.0, 0, -0.25, 42.0), c))):
+        names = [n for n in dir(cls) if (not n.startswith("_") or n in ("__iter__", "__rmul__")) and n not in BINARY_OR_PLAIN
+                 and not (cname == "GeoBox" and n in ("qr2sample", "boundary"))]
         for n in names:
             full = f"{cname}.{n}"
             static = inspect.getattr_static(cls, n)
@@ -140,15 +148,22 @@ def check_unary(C):
     try:
         for name in [n for n in model if n in found]:
             cname, n = name.split(".", 1)
-            static = inspect.getattr_static(getattr(gm, cname), n)
-            takes_crs = name in ("Geometry.assign_crs", "Geometry.to_crs", "BoundingBox.to_crs")
+            static = inspect.getattr_static(getattr(gm, cname) if cname != "GeoBox" else C.gbmod.GeoBox, n)
+            takes_crs = name in ("Geometry.assign_crs", "Geometry.to_crs", "BoundingBox.to_crs", "GeoBox.to_crs")
             for es in pool:
                 for et in (pool if takes_crs else [pool[0]]):
                     if name.endswith("to_crs") and (es[2] is None or et[2] is None):
                         continue   # refusals of to_crs are C07's (to_crs_none_errors)
                     hits = 0
                     for kind, shp in (kinds.items() if cname == "Geometry" else [("bbox", None)]):
-                        obj = gm.Geometry(shp, es[2]) if cname == "Geometry" else gm.BoundingBox(1.0, 2.0, 5.0, 7.0, es[2])
+                        if cname == "Geometry":
+                            obj = gm.Geometry(shp, es[2])
+                        elif cname == "BoundingBox":
+                            obj = gm.BoundingBox(1.0, 2.0, 5.0, 7.0, es[2])
+                        else:
+                            from affine import Affine
+
+                            obj = C.gbmod.GeoBox((8, 8), Affine(0.25, 0, 10.0, 0, -0.25, 42.0), es[2])
 
                         def f():
                             if isinstance(static, property):
@@ -345,8 +360,8 @@ def check_utm(C):
 
     R: Run = C.R
     gm, CRS = C.gmod, C.CRS
-    zones = range(1, 61) if not R.quick else sorted(set(R.rng.sample(range(2, 60), 2)) | {1, 60})
-    texts = UTM_TEXTS if not R.quick else ("utm", "UTM-N", "Utm-n", "utm-s", "utm-x", "utmzone")
+    zones = range(1, 61) if not R.quick else sorted(set(R.rng.sample(range(2, 60), 1)) | {1, 60})
+    texts = UTM_TEXTS if not R.quick else ("utm", "UTM-N", "utm-s", "utm-x")
     for z in zones:
         lon = -183.0 + 6.0 * z
         for lat in (41.0, -37.0):
